@@ -599,6 +599,12 @@ void
 		bytes_to_copy = (char*)Glu->stack.array + Glu->stack.top1
 		    - (char*)expanders[type + 1].mem;
 		user_bcopy(expanders[type+1].mem, new_mem, bytes_to_copy);
+#ifdef XIAOYELI_SUPERLU_VERIF
+		/* verification hook: the bytes vacated by the shift are fresh, uninitialised capacity of the
+		   grown array; poison them so that a pointer still referring to the old place of a moved
+		   array is noticed (the in-place analogue of freeing the old block under library allocation) */
+		memset(expanders[type+1].mem, 0xff, extra);
+#endif
 
 		if ( type < USUB ) {
 		    Glu->usub = expanders[USUB].mem =
